@@ -10,7 +10,7 @@ EXTENDS Naturals
 MaxLine     == 16384     \* a head line without end
 MaxSizeLine == 128       \* a chunk-size line without end
 MaxRefusal  == 10240     \* CONNECT refusal body
-Slack       == 2 * 8192 + 64   \* read-ahead granularity of buffered readers (not fixed by the property)
+Slack       == 262144    \* read-ahead of buffered readers: an implementation constant the property does not fix (generous)
 
 \* how much input may be consumed before the construct is rejected or cut
 Limit(e) ==
